@@ -43,3 +43,12 @@ pub fn compressed_response(
         "html",
     )
 }
+
+/// What the response cache makes of the headers of `response`: `None` if it must not be stored,
+/// `Some(None)` if it can be kept for as long as possible, `Some(Some(lifetime))` otherwise.
+#[must_use]
+pub fn storage_lifetime(
+    response: &crate::comprash::CompressedResponse,
+) -> Option<Option<std::time::Duration>> {
+    crate::comprash::ResponseCache::storage_lifetime(response)
+}
